@@ -3,6 +3,7 @@ package main
 import (
 	"fmt"
 	"strings"
+	"unicode"
 
 	"code.gopub.tech/tpl/html"
 )
@@ -103,8 +104,21 @@ func genPlainCase(r *Rng, out *outFiles) {
 			if cfg.tags != nil {
 				sc.SetTextTags(cfg.tags)
 			}
+			// independent of any tokenisation: apart from white space the output IS the source (no name re-spelled, no
+			// comment dropped, nothing added) - the statement of theorem render_differs_only_by_space
+			nsp := func(s string) string {
+				return strings.Map(func(c rune) rune {
+					if unicode.IsSpace(c) {
+						return -1
+					}
+					return c
+				}, s)
+			}
+			if nsp(rs[0].out) != nsp(src) {
+				c01 = fmt.Sprintf("output %q differs from the source %q by more than white space", rs[0].out, src)
+			}
 			toks, err := sc.GetAllTokens()
-			if err == nil {
+			if err == nil && c01 == "" {
 				p := html.NewParser()
 				p.VoidElements = defVoids(cfg.voids)
 				tree, perr := p.ParseTokens(toks)
